@@ -162,5 +162,108 @@ JOBS['C09'] = Job('C09', mc='MC_Checksum', tag='CKS', drive='cks-run', trace='Tr
                                'UDP over IPv6 jumbograms (payload > 65527) are not generated'])
 
 
+def wire_extra(tier, seed):
+    """seeded random well formed values of every header kind (fields uniformly random, variable parts of random admissible length)"""
+    r = random.Random(seed * 23 + 8)
+    out = []
+
+    def by(n):
+        return [r.randrange(256) for _ in range(n)]
+    n = 150 if tier == 'quick' else 5000
+    for _ in range(n):
+        out.append({'kind': 'value', 'type': 'eth', 'f': by(12) + [r.randrange(65536)], 'bytes': []})
+        out.append({'kind': 'value', 'type': 'vlan', 'f': [r.randrange(8), r.randrange(2), r.randrange(4096), r.randrange(65536)], 'bytes': []})
+        pt = r.randrange(4)
+        sl = r.randrange(64)
+        if pt == 0 and sl == 1:
+            sl = 2
+        sc = r.randrange(2)
+        out.append({'kind': 'value', 'type': 'macsec', 'f': [pt, r.randrange(65536) if pt == 0 else -1, r.randrange(2), r.randrange(2), r.randrange(4), sl] + by(4) + ([1] + by(8) if sc else [0]), 'bytes': []})
+        h, p = r.choice([0, 1, 6, 8, 255]), r.choice([0, 4, 16, 255])
+        out.append({'kind': 'value', 'type': 'arp', 'f': [r.randrange(65536), r.randrange(65536), h, p, r.randrange(65536)] + by(2 * h + 2 * p), 'bytes': []})
+        on = 4 * r.randrange(0, 11)
+        out.append({'kind': 'value', 'type': 'ipv4', 'f': [r.randrange(64), r.randrange(4), r.randrange(65536), r.randrange(65536), r.randrange(2), r.randrange(2), r.randrange(8192),
+                                                           r.randrange(256), r.randrange(256), r.randrange(65536)] + by(8) + by(on), 'bytes': []})
+        out.append({'kind': 'value', 'type': 'auth', 'f': [r.randrange(256)] + by(8) + by(4 * r.choice([0, 1, 2, 3, 10, 254])), 'bytes': []})
+        out.append({'kind': 'value', 'type': 'ipv6', 'f': [r.randrange(256), r.randrange(16), r.randrange(256), r.randrange(256), r.randrange(65536), r.randrange(256), r.randrange(256)] + by(32), 'bytes': []})
+        out.append({'kind': 'value', 'type': 'udp', 'f': [r.randrange(65536) for _ in range(4)], 'bytes': []})
+        tn = 4 * r.randrange(0, 11)
+        out.append({'kind': 'value', 'type': 'tcp', 'f': [r.randrange(65536), r.randrange(65536)] + by(8) + [5 + tn // 4, r.randrange(512), r.randrange(65536), r.randrange(65536), r.randrange(65536)] + by(tn), 'bytes': []})
+        out.append({'kind': 'value', 'type': 'frag', 'f': [r.randrange(256), r.randrange(8192), r.randrange(2)] + by(4), 'bytes': []})
+        out.append({'kind': 'value', 'type': 'rawext', 'f': [r.randrange(256)] + by(6 + 8 * r.choice([0, 1, 2, 7, 255])), 'bytes': []})
+    return out
+
+
+WIRE_ASSUME = ['14 header kinds have a byte-exact encoder in spec/Wire.tla (Ethernet II, Linux SLL, VLAN, MACsec, ARP, IPv4+options, AH, IPv6, UDP, TCP+options, '
+               'fragment, raw extension, ICMPv6 raw form); typed ICMPv4/ICMPv6/IGMP/NDP values are covered by the C17 check',
+               'write_to_slice exists only on Ethernet2Header and LinuxSllHeader; Ipv4Header::write recomputes the checksum (compared separately), write_raw is compared byte for byte']
+JOBS['C08'] = Job('C08', mc='MC_Wire', tag='WIRE', drive='wire-run', trace='Trace_Wire',
+                  invariants=['RoundTrip', 'LenAnnounced', 'Normalises', 'Emit'],
+                  consts_quick={'Full': 'FALSE'}, consts_thorough={'Full': 'TRUE'}, extra=wire_extra,
+                  describe='one case = one header value (star design over all fields, both all-zero and all-ones neighbours, all length classes of variable parts) '
+                           'serialised by every serialiser and decoded from slice and io::Read, or one accepted byte string with reserved bits set decoded and re-encoded',
+                  assumptions=WIRE_ASSUME)
+JOBS['C15'] = Job('C15', mc='MC_Wire', tag='WIRE', drive='wire-run', trace='Trace_Wire',
+                  invariants=['RoundTrip', 'LenAnnounced', 'Normalises', 'Emit'],
+                  consts_quick={'Full': 'FALSE'}, consts_thorough={'Full': 'TRUE'}, extra=None,
+                  describe='one case = one value of one bit field against all-zero and all-ones neighbours: the bytes must equal the specification encoder exactly, '
+                           'so a field can change only the bits it owns',
+                  assumptions=WIRE_ASSUME)
+
+
+NT = ('VlanId', 'VlanPcp', 'IpDscp', 'IpEcn', 'IpFragOffset', 'Ipv6FlowLabel', 'MacsecAn', 'MacsecShortLen', 'Qrv')
+
+
+def fields_tag_props_c14(tag):
+    return [] if tag.split(':')[-1] in NT else ['C14']
+
+
+def fields_tag_props_c15(tag):
+    return ['C15'] if tag.split(':')[-1] in NT or ':' not in tag else []
+
+
+JOBS['C14'] = Job('C14', mc='MC_Fields', tag='FIELD', drive='fields-run', trace='Trace_Fields',
+                  invariants=['AcceptIffFits', 'Monotone', 'Emit'], consts_quick={'Full': 'FALSE'}, consts_thorough={'Full': 'FALSE'},
+                  tag_props=fields_tag_props_c14,
+                  describe='one case = one length-taking API x header context x value (0, 1, limit-2..limit+2, 2^16-2..2^16+2, far beyond); accept/reject, error fields, '
+                           'unchanged-on-error and the value decoded from the encoded field are compared with Fields!Expect',
+                  assumptions=['32 bit pseudo-header limits (UDP/TCP/ICMPv6 over IPv6: 2^32-1-header) are only probed below the limit: no 4 GiB payloads are allocated',
+                               'builder payload limits are checked by the C10 check'])
+
+
 def run(pid, tier, seed, replay=None):
+    if pid == 'C15':
+        return run_c15(pid, tier, seed, replay)
     return run_job(JOBS[pid], pid, tier, seed, replay)
+
+
+def run_c15(pid, tier, seed, replay):
+    """C15 = bounded newtype domains (MC_Fields, newtype cases only) + field isolation through the byte-exact encoders (MC_Wire)"""
+    import json as _json
+    from . import core
+    if replay:
+        rp = _json.load(open(replay))
+        job = C15_FIELDS if rp.get('kind') == 'fields-run' else JOBS['C15']
+        return run_job(job, pid, tier, seed, replay)
+    code1 = run_job(C15_FIELDS, pid, tier, seed, None)
+    ev1 = _json.load(open(core.EVID + '/C15.json'))
+    code2 = run_job(JOBS['C15'], pid, tier, seed, None)
+    ev2 = _json.load(open(core.EVID + '/C15.json'))
+    # merge the two evidence records
+    c1, c2 = ev1['coverage'], ev2['coverage']
+    for k in ('states', 'transitions', 'traces_validated_against_impl', 'evaluations', 'distinct_nontrivial'):
+        c2[k] = c1[k] + c2[k]
+    c2['samples'] = c1['samples'][:2] + c2['samples'][:2]
+    c2['details'] = {'newtype_domains': c1['details'], 'field_isolation': c2['details']}
+    c2['rule'] = c1['rule'] + ' | ' + c2['rule']
+    ev2['wall_s'] = ev1['wall_s'] + ev2['wall_s']
+    ev2['violations'] = ev1['violations'] + ev2['violations']
+    _json.dump(ev2, open(core.EVID + '/C15.json', 'w'), indent=1, sort_keys=True)
+    return 1 if 1 in (code1, code2) else max(code1, code2)
+
+
+C15_FIELDS = Job('C15', mc='MC_Fields', tag='FIELD', drive='fields-run', trace='Trace_Fields',
+                 invariants=['AcceptIffFits', 'Monotone', 'Emit'], consts_quick={'Full': 'FALSE'}, consts_thorough={'Full': 'TRUE'},
+                 tag_props=fields_tag_props_c15,
+                 describe='one case = one value of the complete domain (plus out-of-range neighbours) of a bounded newtype through try_new/try_from',
+                 assumptions=['Ipv6FlowLabel (2^20 values): boundaries + stride in the quick tier, complete in the thorough tier'])
